@@ -75,8 +75,8 @@ def parse_logs(logdir):
                     if fm and func is None:
                         func = fm.group(2)
                     j += 1
-                kind = re.sub(r'-?\d+(\.\d+)?(e[+-]?\d+)?', 'N', u.group(4))
-                kind = re.sub(r'0x[0-9a-f]+', 'ADDR', kind)[:90]
+                kind = re.sub(r'0x[0-9a-f]+', 'ADDR', u.group(4))
+                kind = re.sub(r'-?\d+(\.\d+)?(e[+-]?\d+)?', 'N', kind)[:90]
                 reports.append({'tool': 'ubsan', 'kind': kind, 'func': func or '?', 'file': os.path.basename(u.group(1)),
                                 'line': int(u.group(2)), 'text': '\n'.join(block[:20]), 'log': os.path.basename(path)})
                 i = j
